@@ -19,6 +19,7 @@ import TboxModel.C19.Md5Proofs
 import TboxModel.C19.Md5SpecProofs
 import TboxModel.C19.AesProofs
 import TboxModel.C19.AesSpecProofs
+import TboxModel.C19.Round7Proofs
 namespace Tbox.C19
 set_option maxRecDepth 100000
 
@@ -572,5 +573,157 @@ theorem C19_aes_eq_spec (key block : List UInt8) (hk : key.length = 16) (hb : bl
     Aes.cipher Aes.gen key block = Spec.aesCipher key block
       ∧ Aes.invCipher Aes.gen key block = Spec.aesInvCipher key block :=
   ⟨Aes.cipher_eq_spec key block hk hb, Aes.invCipher_eq_spec key block hk hb⟩
+
+/-! ## 10. Round 7: chained CRC, MD5 life cycle and bit counter, widths, C-string overloads, AES object, URL host / port -/
+
+/-- `C19_crc_chain`: the CRC of `a ++ b` from the CRC of `a`, for EVERY pair of byte strings and EVERY seed. `CalcCrc16` returns the
+register, so its result is the seed of the next call; `CalcCrc32` returns the COMPLEMENT of the register, so the next call must be
+seeded with `~CalcCrc32(a)`. Stated for the table-driven code and (through `C19_crc_eq_bitwise`) for the bitwise definitions. -/
+theorem C19_crc_chain :
+    (∀ (a b : List UInt8) (seed : UInt32), Crc.crc32 (a ++ b) seed = Crc.crc32 b (~~~ Crc.crc32 a seed)) ∧
+    (∀ (a b : List UInt8) (seed : UInt16), Crc.crc16 (a ++ b) seed = Crc.crc16 b (Crc.crc16 a seed)) ∧
+    (∀ (a b : List UInt8) (seed : UInt32), Spec.crc32 (a ++ b) seed = Spec.crc32 b (~~~ Spec.crc32 a seed)) ∧
+    (∀ (a b : List UInt8) (seed : UInt16), Spec.crc16 (a ++ b) seed = Spec.crc16 b (Spec.crc16 a seed)) := by
+  refine ⟨Crc.crc32_append, Crc.crc16_append, ?_, ?_⟩
+  · intro a b seed; simp only [← Crc.crc32_eq_bitwise]; exact Crc.crc32_append a b seed
+  · intro a b seed; simp only [← Crc.crc16_eq_bitwise]; exact Crc.crc16_append a b seed
+
+/-- the naive chaining law `crc32(a ++ b, s) = crc32(b, crc32(a, s))` (what the parameter name `init_seed` suggests; crc.h documents
+nothing) is FALSE for CalcCrc32 already on empty inputs: the final complement is applied by every call -/
+theorem C19_crc32_chain_naive_counterexample :
+    Crc.crc32 (([] : List UInt8) ++ []) 0 = 0xffffffff ∧ Crc.crc32 [] (Crc.crc32 [] 0) = 0 := by decide
+
+/-- `C19_md5_lifecycle`: EVERY history of one MD5 object (md5.h: `update` "may be repeated", `finish` "ends the computation"). Any
+number of updates followed by the first `finish` yields exactly one digest — that of the updates (hence, by `C19_md5_eq_spec`, RFC 1321
+of their concatenation) — and the object is finished: if anything at all follows (`update`, even of zero bytes, or another `finish`)
+the debug build aborts at `TBOX_ASSERT(!is_finished_)` before producing anything more. Histories without `finish` produce nothing. -/
+theorem C19_md5_lifecycle (P : Md5.Params) (us : List (List UInt8)) (rest : List Md5.Step) :
+    Md5.runScript P (Md5.Obj.new P) (us.map some ++ none :: rest) = ([Md5.digestSplit P us], !rest.isEmpty)
+      ∧ Md5.runScript P (Md5.Obj.new P) (us.map some) = ([], false) :=
+  ⟨Md5.runScript_updates P us rest _ rfl, Md5.runScript_no_finish P us _ rfl⟩
+
+example : Md5.runScript Spec.md5Params (Md5.Obj.new Spec.md5Params) [some [0x61], none, some []] =
+    ([[0x0c, 0xc1, 0x75, 0xb9, 0xc0, 0xf1, 0xb6, 0xa8, 0x31, 0xc3, 0x99, 0xe2, 0x69, 0x77, 0x26, 0x61]], true) := by decide +kernel
+
+/-- release builds (`NDEBUG`: the assertion is compiled out). `finish` is NOT idempotent: a second `finish` returns the MD5 of the
+message followed by the first call's padding and length block, for every history of updates -/
+theorem C19_md5_finish_twice_release (pieces : List (List UInt8)) (hp : ∀ p ∈ pieces, p.length < 2 ^ 61) :
+    Md5.finishTwiceRelease Md5.gen (pieces.foldl (Md5.update Md5.gen) (Md5.init Md5.gen))
+      = Spec.md5 (pieces.flatten ++ Md5.finishPad Md5.gen (pieces.foldl (Md5.update Md5.gen) (Md5.init Md5.gen))
+                    ++ Md5.finishBits (pieces.foldl (Md5.update Md5.gen) (Md5.init Md5.gen))) := by
+  rw [Md5.finishTwice_eq, C19_md5_eq_spec]
+  · simp [List.flatten_append]
+  · intro p hm
+    rcases List.mem_append.mp hm with h | h
+    · exact hp p h
+    · simp only [List.mem_cons, List.not_mem_nil, or_false] at h
+      rcases h with h | h
+      · rw [h]; exact Md5.finishPad_length _ _
+      · rw [h]; exact Md5.finishBits_length _
+
+/-- … which differs from the first digest, e.g. for the empty message -/
+theorem C19_md5_finish_twice_counterexample :
+    Md5.finishTwiceRelease Spec.md5Params (Md5.init Spec.md5Params) ≠ Md5.finish Spec.md5Params (Md5.init Spec.md5Params) := by
+  decide +kernel
+
+/-- `C19_md5_bitcount_exact` (md5.cpp:264/271, size_t → uint32_t): `count_[1]:count_[0]` always holds 8·(bytes fed) modulo 2^64 —
+the value RFC 1321 §3.2 asks for — for EVERY sequence of updates each shorter than 2^61 bytes; below a total of 2^61 bytes
+(2 EiB) it is the exact bit count. -/
+theorem C19_md5_bitcount_exact (P : Md5.Params) (pieces : List (List UInt8)) (hp : ∀ p ∈ pieces, p.length < 2 ^ 61) :
+    (pieces.foldl (Md5.update P) (Md5.init P)).count1.toNat * 2 ^ 32 + (pieces.foldl (Md5.update P) (Md5.init P)).count0.toNat
+        = 8 * pieces.flatten.length % 2 ^ 64
+      ∧ (pieces.flatten.length < 2 ^ 61 →
+          (pieces.foldl (Md5.update P) (Md5.init P)).count1.toNat * 2 ^ 32 + (pieces.foldl (Md5.update P) (Md5.init P)).count0.toNat
+            = 8 * pieces.flatten.length) := by
+  have h := Md5.count_exact P pieces hp
+  exact ⟨h, fun ht => by rw [h]; omega⟩
+
+/-- scalable_integer.cpp:100 (`int pos = need_bytes - 2`, size_t → int): the narrowed value is at most 8 for every 64-bit input -/
+theorem C19_si_pos_fits_int (v : Nat) : ∃ need, SInt.needBytes v = .ok need ∧ 1 ≤ need ∧ need - 2 ≤ 8 := by
+  obtain ⟨n, hn, h1, h10⟩ := SInt.needGo_spec v 10 1 (by omega) (by omega)
+  exact ⟨n, hn, h1, by omega⟩
+
+/-- signed stream operators (`s << int16_t` is `append(static_cast<uint16_t>(in))`, `s >> int16_t&` reads the same storage): for every
+width and EVERY value of the signed type the cast is a valid unsigned field (so `C19_ser_roundtrip` applies to it) and reading it back
+as signed gives the value -/
+theorem C19_ser_signed_roundtrip (n : Nat) (hn : n = 1 ∨ n = 2 ∨ n = 4 ∨ n = 8) (v : Int)
+    (hlo : -(2 ^ (8 * n - 1) : Nat) ≤ v) (hhi : v < (2 ^ (8 * n - 1) : Nat)) :
+    Ser.toUnsigned n v < 2 ^ (8 * n) ∧ Ser.toSigned n (Ser.toUnsigned n v) = v := by
+  unfold Ser.toSigned Ser.toUnsigned
+  rcases hn with h | h | h | h <;> subst h <;>
+    simp only [Nat.reduceMul, Nat.reduceSub, Nat.reducePow] at * <;> omega
+
+example : Ser.toUnsigned 2 (-2) = 65534 ∧ Ser.toSigned 2 65534 = -2 := by decide
+
+/-- the bounds check as coded after the fix (`need_size <= size_ - pos_`, all `size_t`) is the mathematical `pos + need ≤ size` for
+EVERY `need` (up to `SIZE_MAX`), given the invariant `pos ≤ size` — which `take` (`C19_des_take_bounds`), `skip` and `set_pos` keep -/
+theorem C19_des_checksize_exact (d : Ser.D) (need : Nat) (hs : d.data.length < 2 ^ 64) (hp : d.pos ≤ d.data.length) :
+    Ser.checkSizeW d.data.length d.pos need = d.check need
+      ∧ (d.skip need).2.pos ≤ (d.skip need).2.data.length ∧ (d.setPos need).2.pos ≤ (d.setPos need).2.data.length := by
+  refine ⟨?_, Ser.skip_pos d need hp, Ser.setPos_pos d need hp⟩
+  rw [Ser.checkSizeW_exact _ _ _ hs hp]; rfl
+
+/-- the comparison BEFORE the fix (`pos_ + need_size <= size_`) wraps: `skip(SIZE_MAX)` at position 4 of 8 was accepted (and moved
+the position to 3) -/
+theorem C19_des_checksize_orig_counterexample :
+    Ser.checkSizeOrig 8 4 (2 ^ 64 - 1) = true ∧ Ser.checkSizeW 8 4 (2 ^ 64 - 1) = false ∧ (4 + (2 ^ 64 - 1)) % 2 ^ 64 = 3 := by decide
+
+/-- C-string overloads (`DecodeLength(const char*)`, `Decode(const char*, void*, size_t)`): they see exactly the bytes before the
+first NUL — so they agree with the pointer/length overloads on NUL-free text, and text behind a NUL is never read -/
+theorem C19_b64_cstr (pre post : List UInt8) (cap : Nat) (h : ∀ c ∈ pre, c ≠ 0) :
+    B64.decodeBufZ pre cap = B64.decodeBuf pre cap ∧ B64.decodeLengthZ pre = B64.decodeLength pre
+      ∧ B64.decodeBufZ (pre ++ 0 :: post) cap = B64.decodeBuf pre cap := by
+  unfold B64.decodeBufZ B64.decodeLengthZ
+  rw [B64.cstr_no_nul pre h, B64.cstr_at_nul pre post h]
+  exact ⟨rfl, rfl, rfl⟩
+
+/-- decoding onto a vector that already holds data appends exactly the original bytes -/
+theorem C19_b64_decode_onto (pre x : List UInt8) (hx : x ≠ []) :
+    ∃ e, B64.encodeStr x = .ok e ∧ B64.decodeVecOnto pre e = .ok (x.length, pre ++ x) := by
+  obtain ⟨e, h1, _, _, _, _, h6⟩ := C19_b64_roundtrip x hx
+  exact ⟨e, h1, by simp [B64.decodeVecOnto, h6]⟩
+
+/-- the AES object keeps nothing but the round keys, and `setKey` / the constructor overwrite all of them: after `setKey(key)` on ANY
+object (whatever key it had, including the uninitialised one of `AES(nullptr)`) `cipher` / `invcipher` are FIPS-197 under `key` -/
+theorem C19_aes_setkey (o : Aes.Obj) (key block : List UInt8) (hk : key.length = 16) (hb : block.length = 16) :
+    (o.setKey Aes.gen key).cipher Aes.gen block = Spec.aesCipher key block
+      ∧ (o.setKey Aes.gen key).invCipher Aes.gen block = Spec.aesInvCipher key block
+      ∧ (Aes.Obj.new Aes.gen key).cipher Aes.gen block = Spec.aesCipher key block :=
+  ⟨(C19_aes_eq_spec key block hk hb).1, (C19_aes_eq_spec key block hk hb).2, (C19_aes_eq_spec key block hk hb).1⟩
+
+/-- `C19_url_port_range` (url.cpp:218, int → uint16_t): what `StringToUrlHost` does with a decimal port text of value n, for EVERY
+digit string: n < 65536 ⇒ the port is n; 65536 ≤ n < 2^31 ⇒ ACCEPTED with the port reduced modulo 65536 (as coded: no range check);
+n ≥ 2^31 ⇒ `std::stoi` throws and the function returns false -/
+theorem C19_url_port_range (ds : List UInt8) (hne : ds ≠ []) (hd : ∀ c ∈ ds, Url.isDigit c = true) :
+    (Url.digitsVal ds < 2 ^ 31 → ∃ i, Url.stoi ds = some i ∧ Url.toU16 i = Url.digitsVal ds % 65536)
+      ∧ (Url.digitsVal ds < 65536 → ∃ i, Url.stoi ds = some i ∧ Url.toU16 i = Url.digitsVal ds)
+      ∧ (2 ^ 31 ≤ Url.digitsVal ds → Url.stoi ds = none) := by
+  have h := Url.stoi_digits ds hne hd
+  refine ⟨?_, ?_, ?_⟩
+  · intro hl; rw [if_neg (by omega)] at h
+    exact ⟨_, h, by unfold Url.toU16; simp only [Int.ofNat_eq_natCast]; omega⟩
+  · intro hl; rw [if_neg (by omega)] at h
+    exact ⟨_, h, by unfold Url.toU16; simp only [Int.ofNat_eq_natCast]; omega⟩
+  · intro hl; rw [if_pos (by omega)] at h; exact h
+
+/-- the wrap is real: "65616" is accepted as port 80, "-1" as 65535, "2147483648" is refused -/
+theorem C19_url_port_wrap_examples :
+    Url.parseHost [104, 58, 54, 53, 54, 49, 54] = (true, ⟨[], [], [104], 80⟩)
+      ∧ Url.parseHost [104, 58, 45, 49] = (true, ⟨[], [], [104], 65535⟩)
+      ∧ (Url.parseHost [104, 58, 50, 49, 52, 55, 52, 56, 51, 54, 52, 56]).1 = false := by decide +kernel
+
+/-- `UrlHostToString` prints a port so that `std::stoi` + the narrowing read it back exactly, for EVERY 16-bit port -/
+theorem C19_url_port_roundtrip (p : Nat) (hp : p < 65536) : ∃ i, Url.stoi (Url.decimal p) = some i ∧ Url.toU16 i = p := by
+  obtain ⟨h1, h2, h3⟩ := Url.decimal_spec p
+  obtain ⟨i, hi, hv⟩ := (C19_url_port_range (Url.decimal p) h1 h2).2.1 (by rw [h3]; exact hp)
+  exact ⟨i, hi, by rw [hv, h3]⟩
+
+/-
+-- OPEN: `C19_url_host_roundtrip` — `Url.parseHost (Url.hostToString h) = (true, h)` for every host value whose user / password / host
+-- contain none of `@ : %` (they are printed unencoded), whose password is empty unless the user is non-empty, and whose port fits
+-- 16 bits. The port part is proved (`C19_url_port_roundtrip`); the splitting at the first '@' / ':' is not proved in Lean. Both sides of
+-- the equation are evaluated on every run (op `url.mkhost`, field rt=, including values outside the predicate, where rt=0 on both sides).
+-- The path / parameter / query part of url.cpp is covered by property C12 (`C12_url_path_roundtrip`).
+-/
 
 end Tbox.C19
